@@ -175,9 +175,64 @@ func c03R3(c *Ctx) {
 	if skipParam == nil && len(fn.Params) == 4 && fn.Params[3].Type().String() == "*string" {
 		skipParam = fn.Params[3]
 	}
-	isUnresolve := func(in ssa.Instruction) bool {
+	helperSkips := 0
+	var isUnresolve func(in ssa.Instruction) bool
+	isUnresolve = func(in ssa.Instruction) bool {
 		cc := callCommon(in)
-		if cc == nil || !cc.IsInvoke() || cc.Method.Name() != "ResolveNode" {
+		if cc == nil {
+			return false
+		}
+		if !cc.IsInvoke() {
+			// a shared helper (`markNodeUnresolvable(id, name)`): every path through it marks the node, except the logged
+			// GetNodeByID failure
+			h := cc.StaticCallee()
+			if h == nil || !isRepoFn(h) || len(h.Blocks) == 0 || h == fn {
+				return false
+			}
+			direct := false
+			eachInstr(h, func(r instrRef) {
+				if c2 := callCommon(r.I); c2 != nil && c2.IsInvoke() && c2.Method.Name() == "ResolveNode" {
+					direct = true
+				}
+			})
+			if !direct {
+				return false
+			}
+			okAll := true
+			skips := 0
+			seen := map[*ssa.BasicBlock]bool{}
+			var walk func(b *ssa.BasicBlock)
+			walk = func(b *ssa.BasicBlock) {
+				if seen[b] || !okAll {
+					return
+				}
+				seen[b] = true
+				for _, i2 := range b.Instrs {
+					if c2 := callCommon(i2); c2 != nil && c2.IsInvoke() && c2.Method.Name() == "ResolveNode" {
+						if s, ok := constString(c2.Args[0]); ok && s == "unresolvable" {
+							return
+						}
+					}
+					if _, isRet := i2.(*ssa.Return); isRet {
+						okAll = false
+						return
+					}
+				}
+				for i, s2 := range b.Succs {
+					if ifi := blockIf(b); ifi != nil && i == 0 && c.isAllowedSkipTest(ifi, nil, li) {
+						skips++
+						continue
+					}
+					walk(s2)
+				}
+			}
+			walk(h.Blocks[0])
+			if okAll {
+				helperSkips = skips
+			}
+			return okAll
+		}
+		if cc.Method.Name() != "ResolveNode" {
 			return false
 		}
 		s, ok := constString(cc.Args[0])
@@ -226,10 +281,10 @@ func c03R3(c *Ctx) {
 	if li.Body != nil {
 		dfs(li.Body, nil)
 	}
-	c.verdict(witness == nil && len(allowed) >= 1, rule, key, c.blockPos(li.Header), fmt.Sprintf("every other output of the stage is marked unresolvable (%d tabled skip edges: produced output, missing node)", len(allowed)),
+	c.verdict(witness == nil && len(allowed) >= 1, rule, key, c.blockPos(li.Header), fmt.Sprintf("every other output of the stage is marked unresolvable (%d tabled skip edges: produced output, missing node)", len(allowed)+helperSkips),
 		"an alternative output of a stage can stay resolvable after another output was produced: dependants of the output that did not happen keep waiting or run", witness...)
 	// the stage filter: outer loop skips only stages whose ID differs
-	c.minCount(rule, "allowed skip branches", len(allowed), 2)
+	c.minCount(rule, "allowed skip branches", len(allowed)+helperSkips, 2)
 }
 
 // C03.R4 one guarded success return.
